@@ -26,19 +26,22 @@ contract(
     requires=["self.temp_root_node is not None"], ensures=["result == self.temp_root_node"], returns="Element | None",
     modifies=[], pure=True, trusted=True,
 )
-# generate_heading_target: registers names / the slug (C10's functions) and may append ONE warning node to the current node
+# generate_heading_target: registers names / the slug (C10's functions); may append a warning node to the current node, and
+# docutils' note_implicit_target may append a message to `node` (the section / rubric) when the name clashes
 contract(
     f"{M}:DocutilsRenderer.generate_heading_target",
     requires=[],
     ensures=["self.current_node == old(self.current_node)",
              "self.current_node.children[: len(old(self.current_node.children))] == old(self.current_node.children)",
-             "forall_obj('Element', lambda e: implies(old(allocated(e)) and e != self.current_node, e.children == old(e.children)))",
+             "node.children[: len(old(node.children))] == old(node.children)",
+             "forall_obj('Element', lambda e: implies(old(allocated(e)) and e != self.current_node and e != node, e.children == old(e.children)))",
              "forall_obj('Element', lambda e: implies(old(allocated(e)), e.parent == old(e.parent) and e.kind == old(e.kind) and e.line == old(e.line)))"],
     types={"token": "SyntaxTreeNode", "node": "Element", "title_node": "Element"},
     raises={}, modifies=["Element.children", "Element.parent", "Element.kind", "Element.line", "Element.source", "Document.log", "fresh"], trusted=True,
 )
 assumed("DocutilsRenderer.generate_heading_target", "registers the implicit target and the slug (compute_unique_slug / default_slugify are under "
-        "contract, C10) and may append one warning node to the current node; it changes no other node", "myst_parser")
+        "contract, C10); it may append a warning node to the current node and docutils may append a message to `node` on a name "
+        "clash; it changes no other node", "myst_parser")
 
 SECTION_CTX = ("(self.current_node.kind == 'document' or self.current_node.kind == 'section'"
                " or self.current_node == self.md_env.get('temp_root_node', None))")
